@@ -129,6 +129,35 @@ func c05Gen(c *core.Ctx) func(yield func(c05Case) bool) {
 			}
 		}
 		shortcut = nil
+		// one node replaced by a decorator after (or before) its initialisation, acyclic graphs (a
+		// substitute on a cycle makes the start fail, C03): the decorator forwards the init methods it
+		// inherits - the component still passes through them exactly once
+		quickLazy = true
+		for node := 0; node < 3 && ok; node++ {
+			for _, plan := range []int{scen.WrapAfter, scen.WrapBefore} {
+				w := []int{0, 0, 0}
+				w[node] = plan
+				allGraphs(3, three, false, func(e [][]int) bool {
+					for i := range e {
+						for j := range e[i] {
+							if i >= j && e[i][j] != 0 {
+								return true // acyclic: edges only from lower to higher index
+							}
+						}
+					}
+					for _, base := range [][]int{{0, 1, 2}, {2, 1, 0}} {
+						p := scen.GraphProg{N: 3, Edges: e, Lazy: []bool{false, false, false}, Obs: 1, Base: base, Config: true, Family: "n3-decorated", Wrap: w}
+						if ok = yield(c05Case{p, 0}); !ok {
+							return false
+						}
+					}
+					return true
+				})
+			}
+		}
+		if !ok {
+			return
+		}
 		quickLazy = !c.Thorough()
 		fam(3, three, [][]int{{0, 1, 2}}, "n3-dev", 1, []int{1})
 		quickLazy = false
